@@ -188,7 +188,13 @@ _NOAX_RE = re.compile(r"'([^']+)' does not depend on any axioms")
 
 
 def write_audit_file():
-    """FparserModel/Audit.lean: `#print axioms` for every theorem named in theorems/*.json"""
+    """Audit.lean: `#print axioms` for every theorem named in theorems/*.json"""
+    idx = theorem_index()
+    write_if_changed(os.path.join(LEAN, "Audit.lean"), _audit_text(idx))
+    return idx
+
+
+def _old_write_audit_file():
     idx = theorem_index()
     mods = sorted({t["module"] for t in idx})
     lines = []
@@ -218,29 +224,68 @@ def run_audit():
 _proof_cache = {}
 
 
-def proof_state(force=False):
-    """Translator + build + audit, once per process, under a file lock so concurrent
-    checks do not race.  Returns dict:
-       ok, stage_failed (None|'extract'|'build'|'audit-grep'|'audit-axioms'), log,
-       theorems: [ {name,…, axioms:[…], checked:bool} ]"""
-    if "st" in _proof_cache and not force:
-        return _proof_cache["st"]
-    st = {"ok": True, "stage_failed": None, "log": "", "theorems": [], "wall_s": 0.0}
+def _audit_text(ths):
+    mods = sorted({t["module"] for t in ths})
+    lines = ["import " + m for m in mods]
+    lines.append("/-! generated by fv/common.py: axiom audit -/")
+    lines += ["#print axioms " + t["name"] for t in ths]
+    return "\n".join(lines) + "\n"
+
+
+def run_audit_on(ths, fname):
+    path = os.path.join(LEAN, fname)
+    write_if_changed(path, _audit_text(ths))
+    r = subprocess.run(["lake", "env", "lean", fname], cwd=LEAN, capture_output=True, text=True, timeout=1800)
+    out = r.stdout + r.stderr
+    ax = {}
+    flat = out.replace("\n  ", " ").replace("\n", " ")
+    for m in _AX_RE.finditer(flat):
+        ax[m.group(1)] = [a.strip() for a in m.group(2).split(",") if a.strip()]
+    for m in _NOAX_RE.finditer(out):
+        ax[m.group(1)] = []
+    return ax, (out if r.returncode != 0 else "")
+
+
+def proof_state(prop=None, tie_modules=(), force=False):
+    """Translator + build + audit under a file lock.  Whole library first; when that fails,
+    the modules carrying `prop`'s theorems (and its tie modules) are built and audited on
+    their own, so that a break in an unrelated slice does not implicate this property.
+    Returns dict: ok (for this property), stage_failed, log, theorems (all, with .checked)."""
+    key = prop or "*"
+    if key in _proof_cache and not force:
+        return _proof_cache[key]
+    st = {"ok": True, "stage_failed": None, "log": "", "theorems": [], "wall_s": 0.0, "broken": []}
     t0 = time.time()
     with Lock(os.path.join(LEAN, ".verif.lock")):
         ok, msgs = run_extractors_subprocess()
         st["extract"] = msgs
         if not ok:
             st.update(ok=False, stage_failed="extract", log="\n".join(msgs))
-        idx = write_audit_file()
-        okb, log, _ = lake_build()
-        if not okb:
-            st.update(ok=False, stage_failed=st["stage_failed"] or "build", log=st["log"] + "\n" + log[-6000:])
-            st["build_log"] = log
+            st["broken"].append("translator failed: " + "; ".join(m for m in msgs if "FAILED" in m))
+        idx = theorem_index()
+        mine = [t for t in idx if prop is None or prop in t.get("serves", [])]
         hits = audit_sources()
         if hits:
             st.update(ok=False, stage_failed=st["stage_failed"] or "audit-grep", log=st["log"] + "\n" + "\n".join(hits))
-        ax, err = ({}, "build failed") if not okb else run_audit()
+            st["broken"].append("forbidden construct in Lean sources: " + "; ".join(hits[:5]))
+        okb, log, _ = lake_build()
+        ax = {}
+        if okb:
+            ax, err = run_audit_on(idx, "Audit.lean")
+            if err:
+                st["log"] += "\n" + err[-3000:]
+        else:
+            st["build_log"] = log
+            st["log"] += "\n" + log[-5000:]
+            mods = sorted({t["module"] for t in mine} | set(tie_modules))
+            okm, logm, _ = lake_build(mods) if mods else (True, "", 0)
+            if okm:
+                ax, err = run_audit_on(mine, "Audit_%s.lean" % key.replace("*", "all"))
+                st["log"] += "\n(whole-library build failed in an unrelated module; this property's modules build)"
+            else:
+                st.update(ok=False, stage_failed=st["stage_failed"] or "build")
+                st["broken"].append("modules no longer build: %s" % sorted(failing_modules(logm) or failing_modules(log) or ["?"]))
+                st["log"] += "\n" + logm[-4000:]
         ths = []
         for t in idx:
             a = ax.get(t["name"])
@@ -249,12 +294,12 @@ def proof_state(force=False):
             t["checked"] = a is not None and set(a) <= ALLOWED_AXIOMS
             ths.append(t)
         st["theorems"] = ths
-        if okb and (err or any(not t["checked"] for t in ths)):
-            bad = [t["name"] for t in ths if not t["checked"]]
-            st.update(ok=False, stage_failed=st["stage_failed"] or "audit-axioms",
-                      log=st["log"] + "\nunchecked theorems: %s\n%s" % (bad, err[-3000:]))
+        bad = [t["name"] for t in ths if not t["checked"] and (prop is None or prop in t.get("serves", []))]
+        if bad:
+            st.update(ok=False, stage_failed=st["stage_failed"] or "audit-axioms")
+            st["broken"].append("theorems not checked: %s" % bad[:10])
     st["wall_s"] = time.time() - t0
-    _proof_cache["st"] = st
+    _proof_cache[key] = st
     return st
 
 
